@@ -2,6 +2,7 @@
 //! One module per property (`cNN.rs`, `pub fn run(args: &hcore::Args, out: &mut hcore::Out)`).
 
 mod c46;
+mod c46_e2e;
 
 fn main() {
     let args = hcore::Args::parse();
